@@ -114,6 +114,9 @@ def gen_cases(thorough):
                 add(derive, cont, lit_rs("{0%s}" % sp) + ", " + f0, "pass", "f0", ptrait, "bare, index 0, one argument")
                 # one named argument, matching name
                 add(derive, cont, lit_rs("{a%s}" % sp) + ", a = " + last, "pass", "f%d" % (c.n - 1), ptrait, "bare, matching alias")
+                # the only argument may be written `name = expr` and still be referred to by position
+                add(derive, cont, lit_rs("{%s}" % sp) + ", a = " + last, "pass", "f%d" % (c.n - 1), ptrait, "bare, implicit index, one named argument")
+                add(derive, cont, lit_rs("{0%s}" % sp) + ", a = " + f0, "pass", "f0", ptrait, "bare, index 0, one named argument")
                 if ptrait != "Pointer":
                     # expression argument
                     add(derive, cont, lit_rs("{%s}" % sp) + ", %s.wrapping_add(1)" % f0, "pass", "v0.wrapping_add(1)", ptrait, "bare, expression argument")
